@@ -146,7 +146,9 @@ def check_case(case) -> Outcome:
             res = observe(obj.transform, X.values if variant % 2 else X.to_dict("list"))
             what = "transform of a non-DataFrame"
         else:
-            feats = [c for c in X.columns if any(f == c or f.startswith(c + "_") for f in obj.features)]
+            from oracles.views import raw_feature
+
+            feats = sorted({raw_feature(case, f)[0] for f in obj.features} - {None})
             if not feats:
                 return discard("no-feature-kept", out.labels)
             res = observe(obj.transform, X.drop(columns=[feats[pos % len(feats)]]))
